@@ -5,6 +5,30 @@ EXTENDS Sites, TLC, Json, IOUtils, TLCExt
 Log == ndJsonDeserialize(IOEnv.TRACE_FILE)
 VARIABLES l
 (* e: jumps (rows), window, sites (grid ints), G, N, R, thr (ceil(cut^2 N^2)), pairs (observed [rowi,rowj]), nsolo, ncoll *)
+(* beyond C12: aggregations of the pair list.  e.labels: label code per site; e.spm: observed site_pair_count_matrix as        *)
+(* [[la, lb, lc, ld, count], ...] (non-zero entries); e.multi: observed multiple_collective as [[s1, d1, s2, d2, count], ...]     *)
+(* Orientation (which jump of a pair comes first) follows the sort order, which is arbitrary for ties: compared symmetrised.      *)
+TypeOf(e, j) == <<e.labels[j[2] + 1], e.labels[j[3] + 1]>>
+AggOk(e, ev, P) ==
+  LET types == {TypeOf(e, ev[i]) : i \in DOMAIN ev}
+      cnt(t1, t2) == Cardinality({p \in P : TypeOf(e, ev[p[1]]) = t1 /\ TypeOf(e, ev[p[2]]) = t2})
+      sym(t1, t2) == IF t1 = t2 THEN cnt(t1, t1) ELSE cnt(t1, t2) + cnt(t2, t1)
+      obs(t1, t2) == LET m == {k \in DOMAIN e.spm : <<e.spm[k][1], e.spm[k][2]>> = t1 /\ <<e.spm[k][3], e.spm[k][4]>> = t2}
+                     IN IF m = {} THEN 0 ELSE e.spm[CHOOSE k \in m : TRUE][5]
+      osym(t1, t2) == IF t1 = t2 THEN obs(t1, t1) ELSE obs(t1, t2) + obs(t2, t1)
+      RECURSIVE Tot(_)
+      Tot(k) == IF k > Len(e.spm) THEN 0 ELSE e.spm[k][5] + Tot(k + 1)
+      (* multiple_collective: unordered pairs of (start, destination) moves with their multiplicity *)
+      mv(j) == <<j[2], j[3]>>
+      upair(p) == {mv(ev[p[1]]), mv(ev[p[2]])}
+      ups == {upair(p) : p \in P}
+      mexp(u) == Cardinality({p \in P : upair(p) = u})
+      mobs(u) == LET m == {k \in DOMAIN e.multi : {<<e.multi[k][1], e.multi[k][2]>>, <<e.multi[k][3], e.multi[k][4]>>} = u}
+                 IN IF m = {} THEN 0 ELSE e.multi[CHOOSE k \in m : TRUE][5]
+  IN /\ Tot(1) = Cardinality(P)
+     /\ \A t1 \in types, t2 \in types : osym(t1, t2) = sym(t1, t2)
+     /\ \A u \in ups : mobs(u) = mexp(u)
+     /\ \A k \in DOMAIN e.multi : {<<e.multi[k][1], e.multi[k][2]>>, <<e.multi[k][3], e.multi[k][4]>>} \in ups
 VColl(e) ==
   LET S == Len(e.sites)
       nearS == [a \in 1..S |-> [b \in 1..S |-> DistSq(e.G, e.sites[a], e.sites[b], e.N, e.R) < e.thr]]
@@ -21,6 +45,7 @@ VColl(e) ==
      ELSE IF \E q \in exp \ got : TRUE THEN "pair-missed"
      ELSE IF e.nsolo # Len(e.jumps) - Cardinality(involved) THEN "solo-count"
      ELSE IF e.nsolo + e.ncoll # Len(e.jumps) THEN "solo-plus-collective"
+     ELSE IF "labels" \in DOMAIN e /\ ~AggOk(e, ev, P) THEN "collective-aggregations"
      ELSE "ok"
 Init == l = 1
 TStep == /\ l <= Len(Log)
